@@ -19,6 +19,18 @@ CLAIMED["C19"] = dict(
     text="Necessary structural conditions of file/memory equivalence that hold for all operation histories because they are facts of every CFG path: only anonymous temp files are created; flush()? and rewind()? dominate every reader; both iterators restore the shared offset to End(0) on drop; TrackWrite::flush forwards; every method handles both variants and both iterators treat EOF alike; writer and readers share one bincode config; tmp_dir reaches nothing but FileOrMemBuf::new; writer flush bound and chunks(..) argument come from the same Context method with the `>=` idiom. Does not decide item-sequence equality itself.",
     note="Trusted: tempfile_in is anonymous; std BufReader/BufWriter/Seek semantics.",
     ref="DESIGN.md §4 C19")
+_SRV_T = "state-machine extraction from rustc MIR of state.rs (events per basic block, per PolicyStateKind arm) + path/dominance queries (every-path-hits, fail-closed edges)"
+_SRV_N = "Trusted: rustc MIR; tokio Semaphore/Notify/mpsc/oneshot contracts; events of closures/async blocks attributed to their construction block. Structural: shows which transitions/replies/effects exist on which CFG paths for every interleaving, not liveness of the distributed run."
+CLAIMED["C13"] = dict(technique=_SRV_T, note=_SRV_N, ref="DESIGN.md §3 R9, §4 C13, Appendix C",
+    text="The extracted (command x state) relation must contain every edge a compatible run needs, with replies and effects in dominance order on every successful path: leader chain validate-all -> reply Ok -> acquire -> run-all -> Validated -> self Run; both rendezvous arms reach Validated and answer both deferred replies Ok; constants accepted in Validated/SendingConsts/SendingConstsCompleted; check_consts dichotomy; all commands dispatched and handler Breaks propagated; the MPC task delivers at most one output per path, only after mpc, and sends Stop on every path; the permit lives in the MPC future. A missing/rerouted edge, dropped reply or second output alarms; supersets do not.")
+CLAIMED["C14"] = dict(technique=_SRV_T + "; reviewed panic table; command-scalar index rule", note=_SRV_N, ref="DESIGN.md §4 C14",
+    text="For every command kind and every state at once: fallback arms reply an error, restore the state, continue and have no side effect; no actor mutation lies on any CFG path before (or after) an InvalidState*/UnknownSender reply; the state test dominates the type check in schedule; no command-supplied scalar indexes a container unchecked; every panic-capable call in the actor is in a reviewed table; the panic arm of internal_consts_sent is unreachable by the extracted relation.")
+CLAIMED["C15"] = dict(technique=_SRV_T + "; Notify direction discipline", note=_SRV_N, ref="DESIGN.md §4 C15",
+    text="For cancel at any state: handle_cmd breaks after cancel on every path; cancel consumes the actor; every arm answers on every path; client-owning arms call send_cancel exactly once before an Ok reply, Init/ValidateRequested never, Executing delegates to the task whose cancel branch calls send_cancel once then signals back. One genuine defect is recorded as a known finding: a single Notify used in both directions (self-wake).")
+CLAIMED["C16"] = dict(technique=_SRV_T + "; fail-closed comparison edges", note=_SRV_N, ref="DESIGN.md §4 C16",
+    text="All four leader/hash comparison edges, the leader's joined validate results and garble_lang::check are fail-closed with respect to Validated and every Ok reply (mismatch edge: error reply to the validate caller + Break; good edge dominates Validated); check dominates every effect of schedule; polytune::mpc is started only from run x Running and the states leading there are entered only from their predecessors.")
+CLAIMED["C17"] = dict(technique=_SRV_T + "; permit typestate by dominance", note=_SRV_N + " The numeric bound itself is the tokio semaphore's contract.", ref="DESIGN.md §4 C17",
+    text="Permit typestate along the extracted relation: the only acquire_owned is in the leader branch of schedule and its completed await dominates run fan-out / Validated / self Run; the permit is taken exactly in run x Running before the spawn and bound inside the future that awaits polytune::mpc with no drop before the call; the Err edge of every joined RPC fan-out (validate, run, consts) ends the policy on every path, notifies the destination if present and never advances the state.")
 NA = {}
 
 def main():
